@@ -93,6 +93,9 @@ func (ts *TimestampTZ) MarshalJSON() ([]byte, error) {
 //   - 2006-01-02T15:04:05.999999999Z07:00
 //   - 2006-01-02T15:04:05.999999999Z07
 func (ts *TimestampTZ) UnmarshalJSON(data []byte) error {
+	if len(data) < 2 || data[0] != '"' || data[len(data)-1] != '"' {
+		return fmt.Errorf("%w: Cannot parse %s as a JSON string", ErrSQLType, data)
+	}
 	str := data[1 : len(data)-1] // Unquote
 
 	// Figure out which TZ format we need.
